@@ -160,6 +160,52 @@ func (e *Engine) BuildScripts(fr *FuncResult, timeoutMS int, maxChecks int) []st
 	return scripts
 }
 
+// HasQuantifier reports whether the term contains a quantifier.
+func HasQuantifier(t *Term) bool {
+	seen := map[*Term]bool{}
+	var rec func(x *Term) bool
+	rec = func(x *Term) bool {
+		if x.Op == "forall" || x.Op == "exists" {
+			return true
+		}
+		if seen[x] {
+			return false
+		}
+		seen[x] = true
+		for _, a := range x.Args {
+			if rec(a) {
+				return true
+			}
+		}
+		return false
+	}
+	return rec(t)
+}
+
+// RelaxedScript is StandaloneScript with every quantified hypothesis dropped:
+// a model of it is only a candidate counterexample (to be confirmed by replay on the real code).
+func (e *Engine) RelaxedScript(o *Obl, vals []*Term) string {
+	o2 := *o
+	o2.PC = nil
+	for _, t := range o.PC {
+		if !HasQuantifier(t) {
+			o2.PC = append(o2.PC, t)
+		}
+	}
+	if HasQuantifier(o.Goal) {
+		return ""
+	}
+	s := e.StandaloneScript(&o2, true, vals)
+	// prefer unusual identifiers (unregistered backend ids, unknown type bytes): soft constraints on the values read
+	var soft strings.Builder
+	for i, ev := range o.Trace {
+		if ev.Kind == "prim" && ev.Val != nil && ev.Val.Op == "const" && i >= 0 {
+			fmt.Fprintf(&soft, "(assert-soft (> %s 200))\n", ev.Val.Name)
+		}
+	}
+	return strings.Replace(s, "(check-sat)\n", soft.String()+"(check-sat)\n", 1)
+}
+
 // StandaloneScript renders one obligation as a self-contained query.
 func (e *Engine) StandaloneScript(o *Obl, withModel bool, vals []*Term) string {
 	terms := append([]*Term{}, o.PC...)
@@ -176,11 +222,17 @@ func (e *Engine) StandaloneScript(o *Obl, withModel bool, vals []*Term) string {
 	for _, t := range o.PC {
 		sb.WriteString("(assert " + sc.TermText(t) + ")\n")
 	}
-	sb.WriteString("(assert (not " + sc.TermText(o.Goal) + "))\n(check-sat)\n")
+	sb.WriteString("(assert (not " + sc.TermText(o.Goal) + "))\n")
+	if withModel && len(vals) > 0 {
+		for i, v := range vals {
+			fmt.Fprintf(&sb, "(define-fun gv_%d () %s %s)\n", i, v.Sort, sc.TermText(v))
+		}
+	}
+	sb.WriteString("(check-sat)\n")
 	if withModel && len(vals) > 0 {
 		sb.WriteString("(get-value (")
-		for _, v := range vals {
-			sb.WriteString(sc.TermText(v) + " ")
+		for i := range vals {
+			fmt.Fprintf(&sb, "gv_%d ", i)
 		}
 		sb.WriteString("))\n")
 	}
